@@ -115,7 +115,7 @@ func runC11Stop(c *Ctx) {
 		if !ok || calleeName(call) != "errors.Is" || len(call.Call.Args) != 2 {
 			return false
 		}
-		if call.Call.Args[0] != err {
+		if call.Call.Args[0] != err && !exploreAliases[call.Call.Args[0]] {
 			return false
 		}
 		ld, ok := call.Call.Args[1].(*ssa.UnOp)
@@ -144,6 +144,7 @@ func runC11Stop(c *Ctx) {
 				return
 			}
 			cbAfter, rets := exploreAfter(call, v, true, isCBCall)
+			retAls0 := exploreRetAliases
 			var problems []string
 			var facts []string
 			for _, c2 := range cbAfter {
@@ -177,9 +178,10 @@ func runC11Stop(c *Ctx) {
 					}
 					return false
 				}
+				retAl := retAls0[r]
 				stopTrue, stopFalse := !reachedWithout(true), !reachedWithout(false)
 				switch {
-				case er == v:
+				case er == v || retAl[er]:
 					if isEntry && !stopFalse && calleeMayReturnStop {
 						problems = append(problems, fmt.Sprintf("entry function returns the callback's error at %s without having excluded errors.Is(err, Stop): Stop would surface as an error", c.P.Pos(r.Pos())))
 					} else {
@@ -259,6 +261,7 @@ func exploreAfterF(call ssa.CallInstruction, v ssa.Value, nonNil bool, isCB func
 	type item struct {
 		b     *ssa.BasicBlock
 		start int
+		al    map[ssa.Value]bool // phis that carry v on the path taken (err = phi(recurse(), callback()))
 	}
 	seen := map[*ssa.BasicBlock]bool{}
 	idx := 0
@@ -267,17 +270,21 @@ func exploreAfterF(call ssa.CallInstruction, v ssa.Value, nonNil bool, isCB func
 			idx = i
 		}
 	}
-	work := []item{{call.Block(), idx + 1}}
+	exploreRetAliases = map[*ssa.Return]map[ssa.Value]bool{}
+	work := []item{{call.Block(), idx + 1, nil}}
 	for len(work) > 0 {
 		it := work[len(work)-1]
 		work = work[:len(work)-1]
 		b := it.b
+		isV := func(x ssa.Value) bool { return x == v || it.al[x] }
+		exploreAliases = it.al
 		for _, in := range b.Instrs[it.start:] {
 			if c2, ok := in.(ssa.CallInstruction); ok && isCB(c2) {
 				cbs = append(cbs, c2)
 			}
 			if r, ok := in.(*ssa.Return); ok {
 				rets = append(rets, r)
+				exploreRetAliases[r] = it.al
 			}
 		}
 		if len(b.Instrs) == 0 {
@@ -285,7 +292,7 @@ func exploreAfterF(call ssa.CallInstruction, v ssa.Value, nonNil bool, isCB func
 		}
 		succs := b.Succs
 		if ifi, ok := b.Instrs[len(b.Instrs)-1].(*ssa.If); ok {
-			if bo, ok := ifi.Cond.(*ssa.BinOp); ok && ((bo.X == v && isNilConst(bo.Y)) || (bo.Y == v && isNilConst(bo.X))) {
+			if bo, ok := ifi.Cond.(*ssa.BinOp); ok && ((isV(bo.X) && isNilConst(bo.Y)) || (isV(bo.Y) && isNilConst(bo.X))) {
 				takeTrue := (bo.Op == token.NEQ) == nonNil
 				if bo.Op == token.NEQ || bo.Op == token.EQL {
 					if takeTrue {
@@ -297,7 +304,7 @@ func exploreAfterF(call ssa.CallInstruction, v ssa.Value, nonNil bool, isCB func
 			}
 			// errors.Is(v, X) is false when v is nil
 			if !nonNil {
-				if cl, ok := ifi.Cond.(*ssa.Call); ok && calleeName(cl) == "errors.Is" && cl.Call.Args[0] == v {
+				if cl, ok := ifi.Cond.(*ssa.Call); ok && calleeName(cl) == "errors.Is" && isV(cl.Call.Args[0]) {
 					succs = b.Succs[1:]
 				}
 			}
@@ -312,11 +319,40 @@ func exploreAfterF(call ssa.CallInstruction, v ssa.Value, nonNil bool, isCB func
 			}
 			if !seen[s] {
 				seen[s] = true
-				work = append(work, item{s, 0})
+				// phis of s that receive v (or an alias) along this edge are v on this path
+				al := it.al
+				for k, p := range s.Preds {
+					if p != b {
+						continue
+					}
+					for _, in := range s.Instrs {
+						phi, ok := in.(*ssa.Phi)
+						if !ok {
+							break
+						}
+						if k < len(phi.Edges) && isV(phi.Edges[k]) {
+							na := map[ssa.Value]bool{phi: true}
+							for x := range al {
+								na[x] = true
+							}
+							al = na
+						}
+					}
+				}
+				work = append(work, item{s, 0, al})
 			}
 		}
 	}
 	return
+}
+
+// exploreAliases: while exploreAfterF walks, the phis known to carry the tracked value on the current path;
+// exploreRetAliases: the same, recorded for each return reached
+var exploreAliases map[ssa.Value]bool
+var exploreRetAliases map[*ssa.Return]map[ssa.Value]bool
+
+func isTrackedAt(r *ssa.Return, er, v ssa.Value) bool {
+	return er == v || exploreRetAliases[r][er]
 }
 
 // mayReturnStop: f can return a callback's error without having excluded
@@ -340,9 +376,10 @@ func mayReturnStop(f *ssa.Function, isCB func(ssa.CallInstruction) bool, isStopT
 			return
 		}
 		_, rets := exploreAfter(call, v, true, isCB)
+		retAls := exploreRetAliases
 		for _, r := range rets {
 			for _, er := range r.Results {
-				if er != v {
+				if er != v && !retAls[r][er] {
 					continue
 				}
 				_, rs := exploreAfterF(call, v, true, isCB, func(cond ssa.Value, takenTrue bool) bool {
